@@ -15,7 +15,7 @@ From RU Require Import Base.Prelude Base.Utf8 Base.Utf8Facts Model.AsciiSet Gen.
   Proofs.C01_EqClasses Proofs.C01_EqAuthSpec Proofs.C01_EqAuthModel Proofs.C01_EqAuth Proofs.C01_EqAuthHost
   Proofs.C01_EqClasses2 Proofs.C01_EqRel Proofs.C01_EqRelPath Proofs.C01_EqRelArms Proofs.C01_EqRelBase
   Proofs.C01_EqSpSpec Proofs.C01_EqSpPath Proofs.C01_EqSpModel Proofs.C01_EqSp Proofs.C01_EqSpHost
-  Proofs.C01_Override.
+  Proofs.C01_EqAbs Proofs.C01_Override.
 
 (* ================= the base relation and the outcome relation ================= *)
 (* a model record and a record of the Standard that may serve as a base: `related` (wf_b, same ten API
@@ -84,29 +84,45 @@ Proof.
 Qed.
 
 (* ================= the classes ================= *)
+Definition in_proved_nobase3 (input : list N) : bool :=
+  in_class_opaque input || in_class_pathonly input || in_class_authority input || in_class_special input
+  || in_class_noscheme_nobase input.
+
+(* a reference with a scheme of its own that makes both sides ignore the base (Proofs/C01_EqAbs.v: not
+   file, and non-special or different from the scheme of the base), and that is in a no-base class *)
+Definition in_class_abs_base (sb : spec_url) (input : list N) : bool :=
+  match spec_scheme (spec_clean input) with
+  | Some (sch, _) => base_ignored (Some sb) sch && in_proved_nobase3 input
+  | None => false
+  end.
+
 Definition in_proved_class3 (sbase : option spec_url) (input : list N) : bool :=
   match sbase with
-  | None => in_class_opaque input || in_class_pathonly input || in_class_authority input || in_class_special input
-            || in_class_noscheme_nobase input
+  | None => in_proved_nobase3 input
   | Some sb => in_class_fragment_only input || in_class_query_only sb input || in_class_opaque_base_fail sb input
-               || in_class_empty_ref sb input || in_class_relative sb input
+               || in_class_empty_ref sb input || in_class_relative sb input || in_class_abs_base sb input
   end.
 
 Lemma in_proved_class3_of2 sbase input : in_proved_class2 sbase input = true -> in_proved_class3 sbase input = true.
 Proof.
-  unfold in_proved_class2, in_proved_class3, in_proved_class. destruct sbase as [sb|].
+  unfold in_proved_class2, in_proved_class3, in_proved_nobase3, in_proved_class. destruct sbase as [sb|].
   - rewrite orb_false_r. intros ->. reflexivity.
   - intros H. apply orb_true_iff in H. destruct H as [H|H]; [rewrite H; reflexivity | rewrite H; rewrite ?orb_true_r; reflexivity].
 Qed.
 
 (* the string a host parser is applied to in the class of the input, with the isOpaque flag the
    Standard's host parser gets there; None: the class never calls a host function *)
+Definition nobase_host_query (input : list N) : option (bool * list N) :=
+  if in_class_authority input then Some (true, class_host_text input)
+  else if in_class_special input then Some (false, class_host_text_s input)
+  else None.
+
 Definition class_host_query (sbase : option spec_url) (input : list N) : option (bool * list N) :=
   match sbase with
-  | None => if in_class_authority input then Some (true, class_host_text input)
-            else if in_class_special input then Some (false, class_host_text_s input)
-            else None
-  | Some sb => if in_class_rel_authority sb input then Some (true, rel_host_text input) else None
+  | None => nobase_host_query input
+  | Some sb => if in_class_rel_authority sb input then Some (true, rel_host_text input)
+               else if in_class_abs_base sb input then nobase_host_query input
+               else None
   end.
 
 (* the one host hypothesis: on that string the model's host function of that kind (Host::parse_opaque for
@@ -256,6 +272,47 @@ Variable hd : host -> list N.
 Variable shp : bool -> list N -> option spec_host.
 Variable shs : spec_host -> list N.
 
+Definition nobase_host_hyp (input : list N) : Prop :=
+  match nobase_host_query input with
+  | Some (true, s) => host_agree hpo hd shp shs s
+  | Some (false, s) => host_agree_sp hp hd shp shs s
+  | None => True
+  end.
+
+Theorem partial_nobase_good3 ovr input :
+  usv_list input -> ovr = None \/ ovr = Some utf8_encode -> in_proved_nobase3 input = true -> nobase_host_hyp input ->
+  agree_good dbg shs (parse_url dbg hp hpo hd ovr None input) (spec_basic_url_parse shp input None).
+Proof.
+  intros Hu Hovr Hc HH.
+  assert (parse_url dbg hp hpo hd ovr None input = parse_url dbg hp hpo hd None None input) as ->
+    by (destruct Hovr as [-> | ->]; [reflexivity | apply parse_url_utf8_override]).
+  unfold in_proved_nobase3 in Hc.
+  destruct (in_proved_class None input) eqn:E1.
+  - apply agree_good_intro.
+    + apply old_classes_rel_strict; [exact Hu | exact I | exact E1].
+    + intros su HS. exact (old_classes_result_ok dbg hp hpo shp input None su Hu I E1 HS).
+  - cbn [in_proved_class] in E1. rewrite E1 in Hc. cbn [orb] in Hc.
+    unfold nobase_host_hyp, nobase_host_query in HH.
+    destruct (in_class_authority input) eqn:Ea.
+    + apply agree_good_intro.
+      * exact (class_authority dbg hp hpo hd None shp shs input Hu Ea HH).
+      * intros su HS. exact (authority_result_ok shp input su Ea HS).
+    + cbn [orb] in Hc. destruct (in_class_special input) eqn:Es.
+      * apply agree_good_intro.
+        -- exact (class_special dbg hp hpo hd shp shs input Hu Es HH).
+        -- intros su HS. exact (special_result_ok shp input su Es HS).
+      * cbn [orb] in Hc.
+        destruct (class_noscheme_nobase dbg hp hpo hd None shp input Hc) as [[uf ->] ->].
+        cbn [agree_good]. eexists. reflexivity.
+Qed.
+
+Lemma agree_good_outcome_eq m s1 s2 : outcome_eq s2 s1 -> agree_good dbg shs m s1 -> agree_good dbg shs m s2.
+Proof.
+  unfold outcome_eq, agree_good. destruct s2 as [a|ua|]; destruct s1 as [b|ub|]; try contradiction.
+  - intros ->. exact (fun H => H).
+  - intros _ H. exact H.
+Qed.
+
 Theorem partial_equivalence_good3 input base sbase :
   usv_list input -> base_rel3 dbg shs base sbase -> in_proved_class3 sbase input = true ->
   host_hyp3 hp hpo hd shp shs sbase input ->
@@ -269,37 +326,32 @@ Proof.
     + apply agree_good_intro.
       * apply old_classes_rel_strict; [exact Hu | exact R | exact E1].
       * intros su HS. apply (old_classes_result_ok dbg hp hpo shp input (Some sb) su Hu); [split; [exact (rel_valid _ _ _ _ R) | exact Hok] | exact E1 | exact HS].
-    + assert (in_class_relative sb input = true) as Hrel.
-      { cbn [in_proved_class3] in Hc. cbn [in_proved_class] in E1. rewrite E1 in Hc. exact Hc. }
-      clear Hc E1. pose proof Hok as Hok0. apply andb_true_iff in Hok0. destruct Hok0 as [Hcan _].
-      unfold in_class_relative in Hrel. apply orb_true_iff in Hrel.
-      destruct Hrel as [Hrel|Hrel]; [apply orb_true_iff in Hrel; destruct Hrel as [Hrel|Hrel]|].
-      * destruct (class_rel_abs dbg hp hpo hd None shp shs input b sb Hu R Hcan Hrel) as (su & -> & Hbo & A).
-        split; [exact Hbo | exact A].
-      * destruct (class_rel_path dbg hp hpo hd None shp shs input b sb Hu R Hok Hrel) as (su & -> & Hbo & A).
-        split; [exact Hbo | exact A].
-      * unfold host_hyp3, class_host_query in HH. rewrite Hrel in HH.
-        apply agree_good_intro.
-        -- exact (class_rel_authority dbg hp hpo hd None shp shs input b sb Hu R Hcan Hrel HH).
-        -- intros su HS. exact (rel_authority_result_ok shp input sb su Hcan Hrel HS).
-  - (* no base *)
-    destruct (in_proved_class None input) eqn:E1.
-    + apply agree_good_intro.
-      * apply old_classes_rel_strict; [exact Hu | exact I | exact E1].
-      * intros su HS. exact (old_classes_result_ok dbg hp hpo shp input None su Hu I E1 HS).
     + cbn [in_proved_class3] in Hc. cbn [in_proved_class] in E1. rewrite E1 in Hc. cbn [orb] in Hc.
-      unfold host_hyp3, class_host_query in HH.
-      destruct (in_class_authority input) eqn:Ea.
-      * apply agree_good_intro.
-        -- exact (class_authority dbg hp hpo hd None shp shs input Hu Ea HH).
-        -- intros su HS. exact (authority_result_ok shp input su Ea HS).
-      * cbn [orb] in Hc. destruct (in_class_special input) eqn:Es.
-        -- apply agree_good_intro.
-           ++ exact (class_special dbg hp hpo hd shp shs input Hu Es HH).
-           ++ intros su HS. exact (special_result_ok shp input su Es HS).
-        -- cbn [orb] in Hc.
-           destruct (class_noscheme_nobase dbg hp hpo hd None shp input Hc) as [[uf ->] ->].
-           cbn [agree_good]. eexists. reflexivity.
+      clear E1. pose proof Hok as Hok0. apply andb_true_iff in Hok0. destruct Hok0 as [Hcan _].
+      destruct (in_class_relative sb input) eqn:Hrel.
+      * clear Hc. unfold in_class_relative in Hrel. apply orb_true_iff in Hrel.
+        destruct Hrel as [Hrel|Hrel]; [apply orb_true_iff in Hrel; destruct Hrel as [Hrel|Hrel]|].
+        -- destruct (class_rel_abs dbg hp hpo hd None shp shs input b sb Hu R Hcan Hrel) as (su & -> & Hbo & A).
+           split; [exact Hbo | exact A].
+        -- destruct (class_rel_path dbg hp hpo hd None shp shs input b sb Hu R Hok Hrel) as (su & -> & Hbo & A).
+           split; [exact Hbo | exact A].
+        -- unfold host_hyp3, class_host_query in HH. rewrite Hrel in HH.
+           apply agree_good_intro.
+           ++ exact (class_rel_authority dbg hp hpo hd None shp shs input b sb Hu R Hcan Hrel HH).
+           ++ intros su HS. exact (rel_authority_result_ok shp input sb su Hcan Hrel HS).
+      * (* the reference has a scheme of its own and the base is ignored *)
+        cbn [orb] in Hc. unfold host_hyp3, class_host_query in HH.
+        assert (in_class_rel_authority sb input = false) as Era.
+        { unfold in_class_relative in Hrel. apply orb_false_iff in Hrel. tauto. }
+        rewrite Era, Hc in HH.
+        unfold in_class_abs_base in Hc.
+        destruct (spec_scheme (spec_clean input)) as [[sch R0]|] eqn:Es; [|discriminate Hc].
+        apply andb_true_iff in Hc. destruct Hc as [Hbi Hnb].
+        rewrite (model_base_ignored dbg hp hpo hd None b sb shs input sch R0 R Es Hbi).
+        apply (agree_good_outcome_eq _ _ _ (spec_base_ignored shp (Some sb) input sch R0 Es Hbi)).
+        exact (partial_nobase_good3 None input Hu (or_introl eq_refl) Hnb HH).
+  - (* no base *)
+    exact (partial_nobase_good3 None input Hu (or_introl eq_refl) Hc HH).
 Qed.
 
 Theorem partial_equivalence_strict3 input base sbase :
@@ -381,27 +433,35 @@ Qed.
 Lemma usv_of_in (a b : list N) : (forall x, In x a -> In x b) -> usv_list b -> usv_list a.
 Proof. unfold usv_list. intros H Hb. rewrite Forall_forall in *. intros x Hx. exact (Hb x (H x Hx)). Qed.
 
+Lemma nobase_host_query_usv input o s : usv_list input ->
+  nobase_host_query input = Some (o, s) -> usv_list s.
+Proof.
+  intros Hu H. pose proof (usv_spec_clean input Hu) as Hc. unfold nobase_host_query in H.
+  destruct (in_class_authority input).
+  - inversion H; subst o s. unfold class_host_text.
+    destruct (spec_scheme (spec_clean input)) as [[sch R]|] eqn:Es; [|constructor].
+    destruct (spec_scheme_suffix _ _ _ Es) as [pre E]. rewrite E in Hc. apply usv_app in Hc. destruct Hc as [_ Hc].
+    destruct R as [|c1 [|c2 T]]; try constructor.
+    apply (usv_of_in _ T); [|apply usv_cons in Hc; destruct Hc as [_ Hc]; apply usv_cons in Hc; tauto].
+    intros x Hx. unfold auth_host_text in Hx. exact (after_at_in T x (hs_host_in _ _ x Hx)).
+  - destruct (in_class_special input); [|discriminate H]. inversion H; subst o s. unfold class_host_text_s.
+    destruct (spec_scheme (spec_clean input)) as [[sch R]|] eqn:Es; [|constructor].
+    destruct (spec_scheme_suffix _ _ _ Es) as [pre E]. rewrite E in Hc. apply usv_app in Hc. destruct Hc as [_ Hc].
+    apply (usv_of_in _ R); [|exact Hc].
+    intros x Hx. unfold sp_host_text in Hx. exact (drop_sl_in R x (after_at_s_in _ x (hss_host_in _ _ x Hx))).
+Qed.
+
 Lemma class_host_query_usv sbase input o s : usv_list input ->
   class_host_query sbase input = Some (o, s) -> usv_list s.
 Proof.
-  intros Hu H. pose proof (usv_spec_clean input Hu) as Hc. unfold class_host_query in H.
-  destruct sbase as [sb|].
-  - destruct (in_class_rel_authority sb input); [|discriminate H]. inversion H; subst o s.
+  intros Hu H. unfold class_host_query in H.
+  destruct sbase as [sb|]; [|exact (nobase_host_query_usv input o s Hu H)].
+  destruct (in_class_rel_authority sb input).
+  - pose proof (usv_spec_clean input Hu) as Hc. inversion H; subst o s.
     unfold rel_host_text. destruct (spec_clean input) as [|c1 [|c2 T]]; try constructor.
     apply (usv_of_in _ T); [|apply usv_cons in Hc; destruct Hc as [_ Hc]; apply usv_cons in Hc; tauto].
     intros x Hx. unfold auth_host_text in Hx. exact (after_at_in T x (hs_host_in _ _ x Hx)).
-  - destruct (in_class_authority input).
-    + inversion H; subst o s. unfold class_host_text.
-      destruct (spec_scheme (spec_clean input)) as [[sch R]|] eqn:Es; [|constructor].
-      destruct (spec_scheme_suffix _ _ _ Es) as [pre E]. rewrite E in Hc. apply usv_app in Hc. destruct Hc as [_ Hc].
-      destruct R as [|c1 [|c2 T]]; try constructor.
-      apply (usv_of_in _ T); [|apply usv_cons in Hc; destruct Hc as [_ Hc]; apply usv_cons in Hc; tauto].
-      intros x Hx. unfold auth_host_text in Hx. exact (after_at_in T x (hs_host_in _ _ x Hx)).
-    + destruct (in_class_special input); [|discriminate H]. inversion H; subst o s. unfold class_host_text_s.
-      destruct (spec_scheme (spec_clean input)) as [[sch R]|] eqn:Es; [|constructor].
-      destruct (spec_scheme_suffix _ _ _ Es) as [pre E]. rewrite E in Hc. apply usv_app in Hc. destruct Hc as [_ Hc].
-      apply (usv_of_in _ R); [|exact Hc].
-      intros x Hx. unfold sp_host_text in Hx. exact (drop_sl_in R x (after_at_s_in _ x (hss_host_in _ _ x Hx))).
+  - destruct (in_class_abs_base sb input); [|discriminate H]. exact (nobase_host_query_usv input o s Hu H).
 Qed.
 
 (* ================= the host hypothesis for the host model and the Standard's host parser ================= *)
